@@ -282,7 +282,7 @@ impl Check for C13 {
         "C13"
     }
     fn rule(&self) -> String {
-        "proptest-generated source trees with symlinks to files, to directories with nested content, chains of 1,2,3,10,39,40 and 41 links (41 exceeds the kernel limit), relative and absolute targets, targets outside the source, dangling links, 2-cycles, self loops, links to an ancestor directory, directories reached through a link that themselves contain links; optionally the source argument itself is a link; both drivers, copied with -r -L. Oracle: if any link below the source cannot be resolved (dangling, cyclic, too long) => exit != 0; otherwise exit 0 => no symlink in the destination and the destination equals the model obtained by resolving every path (a link to a directory becomes a directory with the target's full contents), everything else untouched. Non-trivial: >=1 link to a directory, chain >= 2, or a link leaving the source, or a must-fail case; distinct by case hash.".into()
+        "proptest-generated source trees with symlinks to files, to directories with nested content, chains of 1,2,3,10,39,40 and 41 links (41 exceeds the kernel limit), relative and absolute targets, targets outside the source, dangling links, 2-cycles, self loops, links to an ancestor directory, directories reached through a link that themselves contain links, relative chains crossing directories with a same-named decoy, chains of 40/150/300 nested directories inside the source or behind a link; optionally the source argument itself is a link; both drivers, copied with -r -L. Oracle: if any link below the source cannot be resolved (dangling, cyclic, too long) => exit != 0; otherwise exit 0 => no symlink in the destination and the destination equals the model obtained by resolving every path (a link to a directory becomes a directory with the target's full contents), everything else untouched. Non-trivial: >=1 link to a directory, chain >= 2, or a link leaving the source, or a must-fail case; distinct by case hash.".into()
     }
     fn needs(&self) -> Needs {
         Needs { xcp: true, probe: false, fallback: false }
